@@ -374,6 +374,28 @@ impl NetcodeClient {
     }
 }
 
+#[cfg(renet_verif)]
+impl NetcodeClient {
+    /// (state: 0 disconnected / 1 sending request / 2 sending response / 3 connected, sequence,
+    ///  last packet received time, last packet send time, server address index, challenge token sequence)
+    pub fn verif_state(&self) -> (u8, u64, Duration, Option<Duration>, usize, u64) {
+        let state = match self.state {
+            ClientState::Disconnected(_) => 0,
+            ClientState::SendingConnectionRequest => 1,
+            ClientState::SendingConnectionResponse => 2,
+            ClientState::Connected => 3,
+        };
+        (
+            state,
+            self.sequence,
+            self.last_packet_received_time,
+            self.last_packet_send_time,
+            self.server_addr_index,
+            self.challenge_token_sequence,
+        )
+    }
+}
+
 #[cfg(test)]
 mod tests {
     use crate::{crypto::generate_random_bytes, NETCODE_MAX_PACKET_BYTES};
